@@ -18,6 +18,9 @@ class ContainerError(Exception):
 def _decompress(codec, data):
     if codec == "null":
         return data
+    if len(data) == 0:
+        # no compressed stream of any of these formats is zero bytes long (an empty payload still has its end-of-stream framing)
+        raise ContainerError(f"{codec} block with a zero-length compressed payload")
     if codec == "deflate":
         d = zlib.decompressobj(-15)
         return d.decompress(data) + d.flush()
